@@ -1,5 +1,6 @@
 """Shared machinery of the worlds: faulted calls, held exceptions (finaliser timing),
 dry-run event counting, acknowledged-file bookkeeping."""
+import dis
 import gc
 import hashlib
 import os
@@ -15,28 +16,102 @@ LIB_ROOT = os.path.join(os.path.abspath(os.environ.get("VERIF_REPO", "/repo")), 
 
 LINE_FAULTS = ("interrupt_line", "alloc_line")
 
+# ---------------------------------------------------------------------------------------
+# Where a cancellation can land.  CPython runs signal handlers (and so raises KeyboardInterrupt)
+# only where the interpreter polls its "eval breaker": at the start of a Python function
+# (RESUME), at a backward jump (JUMP_BACKWARD) and right after a call into C returns (CALL,
+# CALL_FUNCTION_EX).  It does NOT poll between the last instruction of a `with` / `try` body and
+# the call of `__exit__` / the first call of the `finally` block - which is exactly why
+# `with open(...)` is cancellation-safe.  A cancellation raised at an arbitrary *line* start
+# (the first version of this fault kind) can land in that gap and made a correct `with` block
+# look like a leaked handle (false alarm C05/ack-file-changed, found on a seeded change that
+# merely shifted the line numbers).  So the line number only chooses *when to arm*; the
+# exception is then delivered at the first instant after it at which CPython itself could
+# deliver one (sys.monitoring events PY_START / PY_RESUME, JUMP backwards, C_RETURN).
+_MON = sys.monitoring
+_TOOL = 3
+_EXTENDED_ARG = dis.opmap["EXTENDED_ARG"]
+
 
 def line_tracer(limit, alloc=False):
-    """sys.settrace hook: counts 'line' events inside the library's own source files and, when
-    limit > 0, delivers at the limit-th one either the simulated cancellation (a Ctrl-C between
-    two lines of a numerical routine) or, with alloc=True, a failed allocation (MemoryError:
-    an `except Exception` that would let a cancellation pass does catch this one)."""
-    state = {"n": 0, "fired": False}
+    """sys.settrace hook: counts 'line' events inside the library's own source files.  When
+    limit > 0 the limit-th one arms the fault: from the interpreter's next poll point on, the
+    poll points themselves are watched (sys.monitoring: start / resumption of a Python
+    function, backward jump, return from a call into C) and the simulated cancellation (or,
+    with alloc=True, a failed allocation: MemoryError - an `except Exception` that lets a
+    cancellation pass does catch this one) is raised at the first of them inside library code,
+    attributed to the polling instruction as CPython would.  -> (global trace function, state);
+    state["disarm"]() must be called when the operation is over."""
+    state = {"n": 0, "fired": False, "armed": False}
+
+    def boom():
+        state["fired"] = True
+        disarm()
+        if alloc:
+            raise MemoryError("simulated allocation failure")
+        raise simio.SimInterrupt("simulated cancellation at an interpreter poll point")
+
+    def on_start(code, off):
+        if state["armed"] and code.co_filename.startswith(LIB_ROOT):
+            boom()
+
+    def on_c_return(code, off, callable_, arg0):
+        if state["armed"] and code.co_filename.startswith(LIB_ROOT):
+            boom()
+
+    def on_jump(code, off, dest):
+        # an exception raised from a JUMP callback skips the handlers of the frame (CPython
+        # 3.12.1), so the backward jump only marks its destination: the interpreter polls right
+        # after this event, which also switches the single-instruction events on, and the
+        # exception is raised at the loop head it then executes
+        if state["armed"] and dest < off and code.co_filename.startswith(LIB_ROOT) and "want" not in state:
+            state["want"] = (code, dest)
+            _MON.set_local_events(_TOOL, code, _MON.events.INSTRUCTION)
+
+    def on_instr(code, off):
+        w = state.get("want")
+        if state["armed"] and w is not None and w[0] is code:
+            if off == w[1] or (code.co_code[w[1]] == _EXTENDED_ARG and off == w[1] + 2):
+                boom()
+            # not where the jump went (cannot happen): give up this mark
+            _MON.set_local_events(_TOOL, code, 0)
+            del state["want"]
+
+    def arm():
+        state["armed"] = True
+        ev = _MON.events
+        _MON.use_tool_id(_TOOL, "simkit-poll-points")
+        _MON.register_callback(_TOOL, ev.PY_START, on_start)
+        _MON.register_callback(_TOOL, ev.PY_RESUME, on_start)
+        _MON.register_callback(_TOOL, ev.C_RETURN, on_c_return)
+        _MON.register_callback(_TOOL, ev.JUMP, on_jump)
+        _MON.register_callback(_TOOL, ev.INSTRUCTION, on_instr)
+        _MON.set_events(_TOOL, ev.PY_START | ev.PY_RESUME | ev.CALL | ev.JUMP)
+
+    def disarm():
+        if state["armed"]:
+            state["armed"] = False
+            ev = _MON.events
+            _MON.set_events(_TOOL, 0)
+            w = state.pop("want", None)
+            if w is not None:
+                _MON.set_local_events(_TOOL, w[0], 0)
+            for e in (ev.PY_START, ev.PY_RESUME, ev.C_RETURN, ev.JUMP, ev.INSTRUCTION):
+                _MON.register_callback(_TOOL, e, None)
+            _MON.free_tool_id(_TOOL)
 
     def local(frame, event, arg):
         if event == "line":
             state["n"] += 1
-            if limit and state["n"] == limit and not state["fired"]:
-                state["fired"] = True
-                if alloc:
-                    raise MemoryError("simulated allocation failure")
-                raise simio.SimInterrupt("simulated cancellation between two source lines")
+            if limit and state["n"] == limit and not state["fired"] and not state["armed"]:
+                arm()
         return local
 
     def glob(frame, event, arg):
         if frame.f_code.co_filename.startswith(LIB_ROOT):
             return local
         return None
+    state["disarm"] = disarm
     return glob, state
 
 
@@ -125,6 +200,7 @@ class WorldBase:
         finally:
             if line_fault:
                 sys.settrace(None)
+                state["disarm"]()
         nev, dig, fired = io.end_op()
         if line_fault and state["fired"]:
             fired = (fault["kind"], "line", fault["at"])
